@@ -26,9 +26,9 @@ CONSTANTS
   OrgFits = {1, 5, 8, 9}
   OrgGens = {0, 3}
   MaxPop = 3
-  MaxTrials = 2
+  MaxTrials = 3
   MaxGens = 2
-  GenChoices = {101, 22, 13, 122}
+  GenChoices = {101, 22, 13}
   Sample = FALSE
 INVARIANTS Plain Yaml Organism Population FastModel ExperimentFile TokensTyped
 CHECK_DEADLOCK FALSE
